@@ -302,6 +302,18 @@ def case_leakage(c):
                 viol.append({'site': 'level_utils.get_leakage_factor', 'failure': 'leakage_factor',
                              'detail': '%s band, tone %.2f fine channels past centre %d: factor %r, 1/sinc(distance to the nearest centre) = %r'
                                        % ('ascending' if asc else 'descending', o, k, got, want)})
+    # one fine channel per reduced row, along the band's own direction: the sign of the file's CHAN_BW
+    for I in (1, 4):
+        n += 1
+        try:
+            udr = float(level_utils.get_unit_drift_rate(be, N, I))
+            want = (be.chan_bw / N) / (be.tbin * N * I)
+            if abs(udr - want) > 1e-12 * abs(want) or (udr > 0) != (sgn > 0):
+                viol.append({'site': 'level_utils.get_unit_drift_rate', 'failure': 'unit_drift_rate_sign',
+                             'detail': '%s band: get_unit_drift_rate(fftlength=%d, int_factor=%d)=%r, one fine channel per reduced row is %r'
+                                       % ('ascending' if asc else 'descending', N, I, udr, want)})
+        except Exception as e:
+            viol.append({'site': 'level_utils.get_unit_drift_rate', 'failure': 'raised', 'detail': '%s: %s' % (type(e).__name__, e)})
     return {'viol': viol, 'n': n, 'nontrivial': [engine.sha(c)], 'outcomes': ['leak/%s' % asc]}
 
 
